@@ -358,6 +358,8 @@ def gen_sensor_seq(rng, n):
 
 
 def run_shard(spec):
+    import hal.simulation as hs
+    hs.pauseTiming()          # several readings at one FPGA timestamp (simulated time only moves when a case moves it)
     rng = random.Random(spec["seed"])
     acc = Acc()
     if spec["mode"] == "units":
@@ -396,6 +398,8 @@ def run_shard(spec):
 
 
 def replay(pid, case):
+    import hal.simulation as hs
+    hs.pauseTiming()
     acc = Acc()
     if case["mode"] == "units":
         from robotpy_ext.common_drivers import units as U
